@@ -1,5 +1,6 @@
 /-
-  C08 — the EVPN constructors as repaired by fix_9 of the W8 report, written as the existing models
+  C08 — the EVPN constructors as repaired by fix_9, fix_12, fix_13 of the W8 report (and, in the two MP wrappers,
+  the IPv4 flow specification guard of fix_14, Model/Construct/Flow.lean), written as the existing models
   (Model/Mp/Evpn.lean, Model/Mp/EvfWrap.lean) behind a decidable guard (see Model/Construct/Guards.lean
   for why this is exact):
 
@@ -10,6 +11,7 @@
       has, and exactly one label.
 -/
 import Yabgp.Model.Mp.EvfWrap
+import Yabgp.Model.Construct.Flow
 
 namespace Yabgp.Evpn
 
@@ -41,7 +43,7 @@ open Yabgp.Evpn
 
 def nlriGuard : Nlri → Bool
   | .evpn rs => rs.all routeGuard
-  | .flowspec _ => true
+  | .flowspec rules => rules.all Flowspec.ruleGuard          -- fix_14
 
 /-- `MpReachNLRI.construct` / `MpUnReachNLRI.construct` for (25, 70) and (1, 133) as repaired -/
 def constructReachR (r : Reach) : CR := if nlriGuard r.nlri then constructReach r else .raises
